@@ -34,6 +34,7 @@ type c06sRun struct {
 	gateDisc map[int]chan struct{}
 	blockConn, blockDisc bool
 	closeInConnected     bool
+	lastPub              network.Connectedness
 }
 
 func (r *c06sRun) id(c network.Conn) int {
@@ -158,6 +159,7 @@ func c06sScenario(t *testing.T, out *verifh.Out, nconn int, blockConn, blockDisc
 			r.mu.Lock()
 			if !r.done {
 				r.labels = append(r.labels, 14, 0, int64(ev.Connectedness), 0)
+				r.lastPub = ev.Connectedness
 			}
 			r.mu.Unlock()
 		}
@@ -248,8 +250,12 @@ func c06sScenario(t *testing.T, out *verifh.Out, nconn int, blockConn, blockDisc
 	if script != 4 {
 		// give the subscriber time to drain, then observe the final state
 		r.mu.Unlock()
-		c06sWait(func() bool { return len(sub.Out()) == 0 })
-		time.Sleep(5 * time.Millisecond)
+		// "once activity stops": wait (bounded) for the subscriber to have seen the event that matches the final state
+		c06sWait(func() bool {
+			r.mu.Lock()
+			defer r.mu.Unlock()
+			return len(sub.Out()) == 0 && r.lastPub == b.Connectedness(a.LocalPeer())
+		})
 		r.mu.Lock()
 		r.labels = append(r.labels, 20, 0, int64(b.Connectedness(a.LocalPeer())), 0)
 		listed := map[network.Conn]bool{}
